@@ -326,6 +326,23 @@ def run(ctx, chk, tier="quick"):
         if isinstance(n, ast.Assign) and isinstance(n.targets[0], ast.Name) and mys_name and \
                 {x.id for x in ast.walk(n.value) if isinstance(x, ast.Name)} >= {mys_name, rain_name} and n is not st:
             inter_name, inter_def = n.targets[0].id, n
+    if inter_def is None and mys_name:
+        # the flag whose runs are taken: the argument of get_true_interval_masks, through plain aliases
+        for c_ in ast.walk(g.node):
+            if isinstance(c_, ast.Call) and ctx.cg.resolve_callee(g, c_.func) == ["classify.get_true_interval_masks"] and c_.args and isinstance(c_.args[0], ast.Name):
+                a0_ = c_.args[0]
+                last_name = a0_
+                dv_ = gflow.def_value(a0_)
+                hops_ = 0
+                while isinstance(dv_, ast.Name) and hops_ < 4:
+                    last_name = dv_
+                    dv_ = gflow.def_value(dv_)
+                    hops_ += 1
+                if dv_ is not None and _flag_expression(dv_, set(role_by_name) | {mys_name, rain_name}):
+                    dn_ = gflow.unique_def_node(last_name)
+                    st_ = gflow.cfg.stmt_of.get(dn_) if dn_ is not None else None
+                    if isinstance(st_, ast.Assign) and isinstance(st_.targets[0], ast.Name):
+                        inter_name, inter_def = st_.targets[0].id, st_
     if inter_def is None:
         chk.indeterminate("C04.O2", where_of(g, g.node), "definition of the interstorm flag not found")
     else:
@@ -341,6 +358,7 @@ def run(ctx, chk, tier="quick"):
                    why="a recession sample is one with no rain and no unexplained rise since the last rain")
         except ValueError as exc:
             chk.indeterminate("C04.O2", where_of(g, inter_def), "boolean formula: %s" % exc)
+    jump_flag_name_ = a_jump.id if isinstance(a_jump, ast.Name) else None
     # ---- O4: stored flags
     ins = [s for s in sites if s.stmt is not None and s.stmt.kind == "insert" and s.stmt.table == "grid_time_flags"]
     if len(ins) != 1 or not isinstance(ins[0].params_node, ast.Call):
@@ -370,6 +388,27 @@ def run(ctx, chk, tier="quick"):
                     src = arg.func.value.id
                 # follow aliases (interval_mask = is_interstorm)
                 role = var_role.get(src)
+                if role is None and src is not None:
+                    # through plain aliases / definitions: a name defined as one of the known arrays
+                    probe = next((x for x in ast.walk(arg) if isinstance(x, ast.Name) and x.id == src), None)
+                    dv = gflow.def_value(probe) if probe is not None else None
+                    hops = 0
+                    while isinstance(dv, ast.Name) and hops < 4:
+                        if dv.id in var_role:
+                            role = var_role[dv.id]
+                            break
+                        dv = gflow.def_value(dv)
+                        hops += 1
+                if role is None and src is not None:
+                    probe = next((x for x in ast.walk(arg) if isinstance(x, ast.Name) and x.id == src), None)
+                    dv = gflow.def_value(probe) if probe is not None else None
+                    known_ = {k for k in var_role if k} | set(role_by_name)
+                    designated_known = want_roles.get(cname) in {r_ for k_, r_ in var_role.items() if k_}
+                    if designated_known and dv is not None and not isinstance(dv, ast.Name) and _flag_expression(dv, known_):
+                        role = "another flag: %s" % ast.unparse(dv)[:50]
+                if role is None:
+                    chk.indeterminate("C04.O4", where_of(g, arg), "column %s <- %s: not traced to the epoch / jump / mystery / interstorm arrays of this function" % (cname, src or ast.unparse(arg)[:40]))
+                    continue
                 chk.ob("C04.O4", role == want_roles.get(cname), where_of(g, arg), "column %s <- %s (%s)" % (cname, src, role),
                        "the %s computed above" % want_roles.get(cname), key="classify_interstorms|flags-insert|%s" % cname,
                        why="a flag stored under another column's name misleads every later reader")
@@ -394,7 +433,22 @@ def run(ctx, chk, tier="quick"):
         core = v
         while isinstance(core, ast.Call) and isinstance(core.func, ast.Name) and core.func.id == "int" and core.args:
             core = core.args[0]
-        ok = isinstance(core, ast.Subscript) and isinstance(core.value, ast.Name) and core.value.id == epoch_name \
+        arr = core.value if isinstance(core, ast.Subscript) and isinstance(core.value, ast.Name) else None
+        arr_role = None
+        if arr is not None:
+            n_ = arr
+            for _h in range(5):
+                if n_.id in role_by_name:
+                    arr_role = role_by_name[n_.id]
+                    break
+                dv_ = gflow.def_value(n_)
+                if not isinstance(dv_, ast.Name):
+                    break
+                n_ = dv_
+        if arr is None or arr_role is None:
+            chk.indeterminate("C04.O3", where_of(g, s.call), "%s = %s: not an element of one of the series arrays of this function" % (col, ast.unparse(v)[:60] if v is not None else "?"))
+            continue
+        ok = arr_role == "epoch" \
             and isinstance(core.slice, ast.Subscript) and isinstance(core.slice.value, ast.Name) and core.slice.value.id == run_var \
             and ast.unparse(core.slice.slice) == idx_want
         chk.ob("C04.O3", ok, where_of(g, s.call), "%s = %s" % (col, ast.unparse(v) if v is not None else "?"),
@@ -426,6 +480,7 @@ def run(ctx, chk, tier="quick"):
            why="a one-sample run has no duration (start < thru is required); dropping two-sample runs loses recessions")
     # provenance of the index arrays: nonzero of masks of the interstorm flag
     prov_ok = False
+    prov_known = False
     if src_list is not None:
         # def reaching the comprehension's iterable (the name is reassigned by the filter itself)
         cand = src_list
@@ -461,9 +516,33 @@ def run(ctx, chk, tier="quick"):
                         break
                     a0 = nxt
                 prov_ok = isinstance(a0, ast.Name) and a0.id == inter_name
-    chk.ob("C04.O3", prov_ok, where_of(g, loop), "runs = indices of each mask of get_true_interval_masks(%s)" % (inter_name,),
+                prov_known = inter_name is not None and isinstance(a0, ast.Name)
+                if not prov_known and inter_name is not None and not isinstance(a0, ast.Name) and _flag_expression(a0, set(role_by_name) | {k for k in (jump_flag_name_, mys_name, inter_name) if k}):
+                    prov_known, prov_ok = True, False      # runs of another flag expression
+                    inter_name = inter_name or ast.unparse(a0)[:40]
+    if not prov_known:
+        chk.indeterminate("C04.O3", where_of(g, loop), "the runs are not read as nonzero() of the masks of get_true_interval_masks(<a flag of this function>)")
+    else:
+      chk.ob("C04.O3", prov_ok, where_of(g, loop), "runs = indices of each mask of get_true_interval_masks(%s)" % (inter_name,),
            "maximal True runs of the interstorm flag", key="classify_interstorms|runs-source", scope=g,
            why="intervals must be the maximal stretches of the flag that was stored")
+
+
+def _flag_expression(e, known):
+    """A boolean combination (~ & | logical_not/and/or, .astype(bool)) of names that all are known arrays of the
+    function: readable -- and, when it is not the designated flag array itself, a different flag."""
+    names = [x.id for x in ast.walk(e) if isinstance(x, ast.Name) and isinstance(x.ctx, ast.Load) and x.id not in ("np", "numpy", "bool")]
+    if not names or not all(n in known for n in names):
+        return False
+    for x in ast.walk(e):
+        if isinstance(x, (ast.Name, ast.Load, ast.UnaryOp, ast.BinOp, ast.BoolOp, ast.Invert, ast.Not, ast.BitAnd, ast.BitOr, ast.And, ast.Or, ast.Attribute, ast.Call)):
+            if isinstance(x, ast.Call):
+                fn = x.func.attr if isinstance(x.func, ast.Attribute) else (x.func.id if isinstance(x.func, ast.Name) else "")
+                if fn not in ("logical_not", "logical_and", "logical_or", "astype", "copy", "bool"):
+                    return False
+            continue
+        return False
+    return True
 
 
 def _anc(node):
